@@ -1,9 +1,12 @@
 PROP = {
-    "claim": "Proof (staged) + correspondence: Lean theorems over a line-by-line model of the pixel pipeline of "
-             "src/devices/video (interleave/flip multiply tricks, tile addressing, object selection and the object line cache, "
-             "the 4-dot mode-3 step with its shift register, window switch, buffer swap) against a per-pixel reference "
-             "composition written from the Game Boy definition; the model is tied to the code by full frames rendered by the "
-             "real VideoState::run_clock_cycles in random batch sizes and compared pixel by pixel with model and reference.",
+    "claim": "Proof + correspondence: frame_spec / frame_spec_next prove, for ALL VRAM/OAM/register bytes, that the frame the model "
+             "presents at VBlank (after power-on, and for every later frame on the same machine after the setters were called again "
+             "during VBlank) equals a per-pixel reference composition written from the Game Boy definition, with no panic; stages: "
+             "interleave/flip multiply tricks and tile addressing (kernel enumeration), object selection + line cache = lowest-X-then-index "
+             "winner, shift-register loop invariant per pixel (BG scroll wrap, window for every WX/WY, object mixing, palettes), mode 2->3 "
+             "set-up, 114 ticks per line, 144 lines, buffer swap. The model is a line-by-line mirror of src/devices/video tied to the code "
+             "by full frames and multi-frame sequences rendered by the real VideoState::run_clock_cycles in random batch sizes and compared "
+             "pixel by pixel with model and reference.",
     "note": "Trusted: Lean kernel (propext/Quot.sound/Classical.choice at most), the harness/driver comparison, rustc. The model "
             "is hand-written; what is verified about the code is theorem AND agreement of code, model and reference on every "
             "generated frame (three-way). Window line = LY - WY (equal to the hardware's window line counter for registers held "
@@ -13,19 +16,17 @@ PROP = {
     "streams": [{"name": "c15", "shards": {"quick": 4, "thorough": 16}},
                 {"name": "c15.seq", "shards": {"quick": 4, "thorough": 16}}],
     "modules": ["GbVerif.Model.Tile", "GbVerif.Model.Ppu", "GbVerif.Spec.Bits", "GbVerif.Spec.Frame", "GbVerif.Proofs.Enum", "GbVerif.Proofs.PpuInterleave",
-                "GbVerif.Proofs.PpuBits", "GbVerif.Proofs.PpuObj", "GbVerif.Proofs.PpuSel", "GbVerif.Proofs.PpuLine", "GbVerif.Proofs.PpuFrame", "GbVerif.Proofs.NatBits"],
+                "GbVerif.Proofs.PpuBits", "GbVerif.Proofs.PpuObj", "GbVerif.Proofs.PpuSel", "GbVerif.Proofs.PpuLine", "GbVerif.Proofs.PpuFrame", "GbVerif.Proofs.PpuCompose", "GbVerif.Proofs.NatBits"],
     "exhaustive": False,
-    "rule": "quick 300 / thorough 30000 full frames (23040 pixels each) from power-on through VideoState's public API in random "
+    "rule": "c15.seq: quick 150 / thorough 6000 sequences of 2-3 frames on one VideoState with LCDC bits 1-6, palettes, scroll, window, OAM and VRAM "
+            "changed during VBlank (objects on->off->on with opaque objects on line 143, 8x16<->8x8); c15: quick 300 / thorough 30000 full frames (23040 pixels each) from power-on through VideoState's public API in random "
             "batch sizes; VRAM/OAM/LCDC bits 1-6/SCX/SCY/WX/WY/BGP/OBP0/OBP1 random + adversarial (11..40 objects on a line, equal X, "
             "X in {0,1,7,8,160..169,255}, Y in {0,8,15,16,144..161}, 8x16 with odd / 0xff tile index, flips, priority bit, WX/WY/SCX/SCY "
             "edge sets and full sweeps); non-trivial = more than one shade on screen",
-    "assumptions": ["proof stages complete: (i) interleave/flip/tile addressing, (ii) object_cache_spec, (iii)-(v) per-pixel "
-                    "invariant (bg_window_colour_spec, mixing_spec, pixel_step_spec) and the 40 drawing ticks (line_spec_partial); "
-                    "NOT proved, covered by the three-way frame correspondence only: (a) the mode 2->3 set-up enterMode3 establishes "
-                    "the invariant at pixel 0 (window first tile for WX<=7, BG first tile with SCX fine-scroll shift), (b) composition "
-                    "over the 114 ticks of a line and the 144 lines of the frame up to the buffer swap (frame_swap_partial proves the swap tick)",
-                    "theorem hypotheses: registers are bytes, VRAM is 8192 and OAM 160 bytes",
-                    "LCDC bits 7 and 0 set (LCD and BG enabled), as the property states",
-                    "VRAM, OAM and all registers constant over the frame; clock batches are multiples of 4 (C14/C09 own the rest)"],
+    "assumptions": ["theorem hypotheses (Contents): all eight registers are bytes, VRAM is 8192 and OAM 160 bytes, contents constant from the "
+                    "register write in VBlank to the next VBlank entry; frame_spec_next additionally: the machine is at a VBlank entry "
+                    "(mode 1, LY 144, dot 0) with a configuration produced by the setters; clock batches are multiples of 4 (C14/C09 own the rest)",
+                    "LCDC bits 7 and 0 set (LCD and BG enabled), as the property states (the code ignores both bits when drawing)",
+                    "mid-frame register/VRAM/OAM writes are outside the property and outside the theorems"],
     "trusted": ["window line counter modelled as LY-WY in the reference (see Spec/Frame.lean header)"],
 }
